@@ -171,6 +171,40 @@ type rtProfile struct {
 	nProbes       int  // extra probes at the end (default 6..19)
 	noIcpt        bool
 	facadeHeavy   bool
+	twinPct       int // percentage of Handle calls using a live pattern with renamed parameters
+	braceValues   bool
+}
+
+// renameParams returns p with every parameter renamed (and its '-' flag toggled sometimes): a pattern
+// that differs from p only in parameter names.
+func renameParams(r *rand.Rand, p string) string {
+	var sb strings.Builder
+	k := 0
+	for len(p) > 0 {
+		if p[0] == '{' {
+			e := strings.IndexByte(p, '}')
+			if e < 0 {
+				break
+			}
+			inner := p[1:e]
+			rule := ""
+			if c := strings.IndexByte(inner, ':'); c >= 0 {
+				rule = inner[c:]
+			}
+			k++
+			name := pick(r, []string{"n", "m", "k", "z"}) + itoa(k)
+			if r.Intn(4) == 0 {
+				name = "-" + name
+			}
+			sb.WriteString("{" + name + rule + "}")
+			p = p[e+1:]
+		} else {
+			sb.WriteByte(p[0])
+			p = p[1:]
+		}
+	}
+	sb.WriteString(p)
+	return sb.String()
 }
 
 // value that is likely to satisfy rule and to avoid the literal bytes of the pattern pool
@@ -320,6 +354,16 @@ func genRT(pr rtProfile) func(r *rand.Rand, w *W) [][]string {
 					} else {
 						ops = append(ops, append([]string{"remove", "r", pick(r, pool)}, list()...))
 					}
+				case 2:
+					if pr.facades {
+						// Prefix.Clean with a prefix of a live pattern (cut anywhere, also inside a token)
+						p := pick(r, pool)
+						id := "c" + itoa(len(ops))
+						ops = append(ops, append([]string{"prefix", id, "r", p[:r.Intn(len(p)+1)]}, list()...), []string{"clean", id})
+						w.Count("prefix-clean")
+						break
+					}
+					fallthrough
 				default:
 					var ms []string
 					for k := 1 + r.Intn(2); k > 0; k-- {
@@ -357,6 +401,9 @@ func genRT(pr rtProfile) func(r *rand.Rand, w *W) [][]string {
 						p = pick(r, malformed)
 					}
 					w.Count("malformed-pattern")
+				} else if len(pool) > 0 && r.Intn(100) < pr.twinPct {
+					p = renameParams(r, pick(r, pool))
+					w.Count("twin-pattern")
 				} else if len(pool) > 0 && r.Intn(5) == 0 {
 					p = pick(r, pool) // same pattern again (other method / duplicate)
 				} else {
@@ -453,7 +500,11 @@ func genRT(pr rtProfile) func(r *rand.Rand, w *W) [][]string {
 					k := strings.TrimPrefix(n, "-")
 					if strings.Contains(p, "{"+k) || strings.Contains(p, "{-"+k) || r.Intn(8) == 0 {
 						if r.Intn(6) != 0 {
-							kv = append(kv, k, pick(r, valuePool))
+							v := pick(r, valuePool)
+							if pr.braceValues && r.Intn(5) == 0 {
+								v = pick(r, []string{"{id}", "{name}", "{p}", "{q}", "{v}", "{a}", "{b}", "{path}", "{x", "}", "{id:\\d+}"})
+							}
+							kv = append(kv, k, v)
 						}
 					}
 				}
@@ -478,17 +529,17 @@ func init() {
 	suites["RT"] = Suite{Gen: genRT(full), Exec: execRT}
 	suites["C01"] = Suite{Gen: genRT(rtProfile{removePct: 15, rawPaths: true, maxRoutes: 12, literalFanout: true, nProbes: 12}), Exec: execRT}
 	suites["C02"] = Suite{Gen: genRT(rtProfile{maxRoutes: 14, literalFanout: true, nProbes: 16, asciiOnly: true}), Exec: execRT}
-	suites["C03"] = Suite{Gen: genRT(rtProfile{removePct: 40, dumpEvery: true, probeEvery: true, facades: true, maxRoutes: 14,
+	suites["C03"] = Suite{Gen: genRT(rtProfile{twinPct: 3, removePct: 40, dumpEvery: true, probeEvery: true, facades: true, maxRoutes: 14,
 		literalFanout: true, badMethodPct: 5}), Exec: execRT}
 	suites["C04"] = Suite{Gen: genRT(rtProfile{removePct: 40, allowProbes: true, maxRoutes: 12, literalFanout: true, tracePct: 50,
-		badMethodPct: 5}), Exec: execRT}
+		badMethodPct: 5, facades: true}), Exec: execRT}
 	suites["C05"] = Suite{Gen: genRT(rtProfile{malformedPct: 40, removePct: 25, badMethodPct: 20, facades: true, urls: true, rawPaths: true,
 		maxRoutes: 10, literalFanout: true, syntaxOps: true}), Exec: execRT}
 	suites["C09"] = Suite{Gen: genRT(rtProfile{removePct: 15, facades: true, use: true, maxRoutes: 12, probeEvery: true}), Exec: execRT}
-	suites["C10"] = Suite{Gen: genRT(rtProfile{malformedPct: 15, removePct: 10, urls: true, maxRoutes: 8, facades: true}), Exec: execRT}
+	suites["C10"] = Suite{Gen: genRT(rtProfile{malformedPct: 15, removePct: 10, urls: true, maxRoutes: 8, facades: true, braceValues: true}), Exec: execRT}
 	suites["C19"] = Suite{Gen: genRT(rtProfile{removePct: 30, facades: true, use: true, urls: true, maxRoutes: 14, probeEvery: true,
 		allowProbes: true, facadeHeavy: true}), Exec: execC19}
 	suites["C17"] = Suite{Gen: genRT(rtProfile{malformedPct: 25, removePct: 10, badMethodPct: 45, dumpEvery: true, probeEvery: true,
-		allowProbes: true, repeatObs: true, maxRoutes: 9, literalFanout: true, syntaxOps: true}), Exec: execRT}
+		allowProbes: true, repeatObs: true, maxRoutes: 9, literalFanout: true, syntaxOps: true, twinPct: 12}), Exec: execRT}
 	suites["C18"] = Suite{Gen: genRT(rtProfile{removePct: 20, tracePct: 70, allowProbes: true, use: true, maxRoutes: 8, rawPaths: true}), Exec: execRT}
 }
